@@ -116,7 +116,7 @@ theorem C18_delete_refines_partial (H : Hashes) (dl : Nat) {s : State} (hi : Inv
     Inv (step H dl s (.deleteObject b k)).1 := delete_refines H dl hi hg
 
 /-- delete_objects: all named objects are gone and every requested key is reported as deleted, in request order — also a key
-    that does not exist and a key the request names more than once (7d30be5; before, keys that did not exist were left out
+    that does not exist and a key the request names more than once (c55c267; before, keys that did not exist were left out
     of the answer: fs:delete-objects-omits-missing-keys, and a repeated key failed with `InternalError` after the first
     removal: fs:delete-objects-duplicate-key); a request with a key both sides refuse is `InvalidArgument` and changes
     nothing; on a bucket that does not exist the answer is `NoSuchBucket` whatever the keys (`InvalidArgument` when one is
@@ -130,7 +130,7 @@ theorem C18_delete_objects_refines_partial (H : Hashes) (dl : Nat) {s : State} (
     Inv (step H dl s (.deleteObjects b keys)).1 := deleteObjects_refines H dl hi hg
 
 /-- copy_object: the destination becomes the source's content, metadata and checksums — whatever metadata or checksums the
-    object it replaces had: they are replaced by the source's, or removed when the source has none (aa68bb7; before:
+    object it replaces had: they are replaced by the source's, or removed when the source has none (8faafe7; before:
     fs:stale-metadata-after-copy, fs:stale-checksum-after-copy); an object copied onto itself stays as it is; a missing
     source bucket is `NoSuchBucket` on both sides (cc244fc). Partial — excluded only: a directory left behind at either path
     (fs:leftover-directory), non-canonical keys, over-long side-file names (fs:long-key-internal-error) -/
@@ -209,7 +209,7 @@ theorem C18_upload_part_copy_refines_partial (H : Hashes) (dl : Nat) {s : State}
     Inv (step H dl s (.uploadPartCopy who b k u n sb sk range)).1 := uploadPartCopy_refines H dl hi hg
 
 /-- list_parts: the part numbers and sizes uploaded so far, in ascending part-number order (`C18_list_parts_exact`) — the
-    order is part of the answer on both sides: the code sorts the parts it read from the directory (1d762a7; before, it
+    order is part of the answer on both sides: the code sorts the parts it read from the directory (764f144; before, it
     returned them in directory-read order and the comparison with the real code had to ignore the order:
     fs:list-parts-unordered); of an upload that does not exist: `NoSuchUpload` on both sides (4609ab3; before, an empty
     list: fs:list-parts-unknown-upload). Partial — excluded only: another key than the upload's
@@ -388,7 +388,7 @@ example : UploadPartCopyOk (run H0 4096 {} (demo.take 23)).1 bka kX (some 1) 2 [
 /-- delete_objects on a bucket that does not exist (also with a repeated key and with a key both sides refuse) -/
 example : DeleteObjectsOk (run H0 4096 {} (demo.take 3)).1 [98, 107, 98] [kX, kX, [46, 46]] := by decide
 /-- delete_objects on an existing bucket with a key that does not exist, a key named twice and (second example) a key both
-    sides refuse: inside the predicate (7d30be5); every requested key is reported, the object is gone -/
+    sides refuse: inside the predicate (c55c267); every requested key is reported, the object is gone -/
 example :
     let s := (run H0 4096 {} (demo.take 3)).1
     DeleteObjectsOk s bka [kA, kX, kA, kDE] ∧
@@ -409,7 +409,7 @@ example : Good (run H0 4096 {} (demo.take 3)).1 (.deleteBucket bka) ∧
 /-- a ranged part copy `bytes=1-3` from an existing object into the owner's upload -/
 example : UploadPartCopyOk (run H0 4096 {} (demo.take 23)).1 bka kX (some 1) 2 bka kDE
     (some [98, 121, 116, 101, 115, 61, 49, 45, 51]) := by decide
-/-- a copy onto an object that has a metadata file, from a source without one, is inside `CopyOk` (aa68bb7; it was the
+/-- a copy onto an object that has a metadata file, from a source without one, is inside `CopyOk` (8faafe7; it was the
     excluded region fs:stale-metadata-after-copy), and the object read afterwards has no metadata -/
 example : CopyOk (run H0 4096 {} (demo.take 5)).1 bka kA bka kDE ∧
     (run H0 4096 {} (demo.take 5 ++ [.copyObject bka kA bka kDE, .getObject bka kDE none])).2.getLast? =
